@@ -459,4 +459,41 @@ example : handlerView [.csrf cfgDefault, .requestID, .csrf cfgSecond]
 example : handlerView [.csrf cfgDefault] [.skipped] (some (lit "csrf", lit "preset")) =
     [.csrf none (some (lit "preset"))] := by decide
 
+/-! ## Set-Cookie lines on the wire (round 6) -/
+
+/-- the cookies the publishing CSRF instances of a stack add, in order -/
+def csrfLines : List (Mw × Pub) → List (Str × Str)
+  | [] => []
+  | (.csrf c, .csrf sc _ _) :: rest => (c.cookieName, sc) :: csrfLines rest
+  | _ :: rest => csrfLines rest
+
+/-- **C12_wire_cookies** — the Set-Cookie lines after the stack ran are exactly: every line that
+    was there before (the application's own cookies, whatever their names — also names that start
+    with a CSRF cookie name), unchanged and in order, followed by ONE line per CSRF instance that
+    passed the request, in stack order, each with that instance's cookie name and token.  No
+    instance removes or replaces a line: stacked instances whose cookie names are prefixes of one
+    another (`_csrf` / `_csrf_site`, either nesting) both reach the client. -/
+theorem C12_wire_cookies (l : List (Mw × Pub)) : ∀ before : List (Str × Str),
+    wireCookies before l = before ++ csrfLines l := by
+  induction l with
+  | nil => intro before; simp [wireCookies, csrfLines]
+  | cons x l ih =>
+    intro before
+    obtain ⟨m, p⟩ := x
+    cases m with
+    | requestID => simp only [wireCookies, csrfLines]; exact ih before
+    | csrf c =>
+      cases p with
+      | skipped => simp only [wireCookies, csrfLines]; exact ih before
+      | rid id => simp only [wireCookies, csrfLines]; exact ih before
+      | csrf sc ctx a =>
+        simp only [wireCookies, csrfLines]
+        rw [ih]; simp
+
+/-- outer `_csrf_site`, inner `_csrf`, application cookie `_csrf_site_state` before: all on the wire -/
+example : wireNames
+    [.csrf { cfgDefault with cookieName := lit "_csrf_site" }, .csrf { cfgSecond with cookieName := lit "_csrf" }]
+    [.csrf (lit "aa") (lit "aa") (cookieAttrs cfgDefault), .csrf (lit "bb") (lit "bb") (cookieAttrs cfgSecond)] true =
+    [lit "session", lit "_csrf_site_state", lit "_csrf_site", lit "_csrf", lit "after"] := by decide
+
 end C12
